@@ -47,6 +47,10 @@ WHITELIST = [
     dict(cls="PredictionSchemeNormalOctahedronCanonicalizedTransformBase", fn="GetRotationCount"),
     dict(cls="PredictionSchemeNormalOctahedronCanonicalizedTransformBase", fn="RotatePoint"),
     dict(cls="PredictionSchemeNormalOctahedronCanonicalizedTransformBase", fn="IsInBottomLeft"),
+    dict(cls="PredictionSchemeNormalOctahedronCanonicalizedDecodingTransform", fn="ComputeOriginalValue",
+         params=["draco::VectorD<int, 2>", "draco::VectorD<int, 2>"]),
+    dict(cls="PredictionSchemeNormalOctahedronCanonicalizedEncodingTransform", fn="ComputeCorrection",
+         params=["draco::VectorD<int, 2>", "draco::VectorD<int, 2>"]),
     dict(cls="PredictionSchemeWrapTransformBase", fn="ClampPredictedValue", pointwise=True),
     dict(cls="PredictionSchemeWrapTransformBase", fn="InitCorrectionBounds"),
     dict(cls="PredictionSchemeWrapDecodingTransform", fn="ComputeOriginalValue", pointwise=True),
@@ -58,6 +62,8 @@ TU_TEXT = """\
 #include "draco/core/math_utils.h"
 #include "draco/compression/attributes/normal_compression_utils.h"
 #include "draco/compression/attributes/prediction_schemes/prediction_scheme_normal_octahedron_canonicalized_transform_base.h"
+#include "draco/compression/attributes/prediction_schemes/prediction_scheme_normal_octahedron_canonicalized_decoding_transform.h"
+#include "draco/compression/attributes/prediction_schemes/prediction_scheme_normal_octahedron_canonicalized_encoding_transform.h"
 #include "draco/compression/attributes/prediction_schemes/prediction_scheme_wrap_transform_base.h"
 #include "draco/compression/attributes/prediction_schemes/prediction_scheme_wrap_decoding_transform.h"
 #include "draco/compression/attributes/prediction_schemes/prediction_scheme_wrap_encoding_transform.h"
@@ -73,6 +79,9 @@ template uint32_t ConvertSignedIntToSymbol<int32_t>(int32_t);
 template int32_t ConvertSymbolToSignedInt<uint32_t>(uint32_t);
 template int32_t AddAsUnsigned<int32_t>(int32_t, int32_t);
 template class PredictionSchemeNormalOctahedronCanonicalizedTransformBase<int32_t>;
+template class PredictionSchemeNormalOctahedronTransformBase<int32_t>;
+template class PredictionSchemeNormalOctahedronCanonicalizedDecodingTransform<int32_t>;
+template class PredictionSchemeNormalOctahedronCanonicalizedEncodingTransform<int32_t>;
 template class PredictionSchemeWrapTransformBase<int32_t>;
 template class PredictionSchemeWrapDecodingTransform<int32_t, int32_t>;
 template class PredictionSchemeWrapEncodingTransform<int32_t, int32_t>;
@@ -431,6 +440,7 @@ class Translator:
         self.structs = {}       # class decl id -> (lean name, [(field, CT)], skipped)
         self.struct_order = []
         self.src_cache = {}
+        self.delegate = {}      # class id -> name of the member object that is `self`
 
     # ---- classes -------------------------------------------------------------------------------------
     def struct_class(self, cls):
@@ -443,6 +453,15 @@ class Translator:
         if not ints and len(bases) == 1:
             bt = bases[0]["type"]
             return self.struct_class(self.ix.find_class_by_type(bt.get("desugaredQualType") or bt["qualType"]))
+        objs = [c for c in own if node_type(c).kind == "class"]
+        if not ints and not bases and len(own) == 1 and len(objs) == 1:
+            # a wrapper around one member object (`octahedron_tool_box_`): `self` is that object
+            t = own[0]["type"]
+            inner = self.ix.find_class_by_type(t.get("desugaredQualType") or t["qualType"])
+            self.delegate[cls["id"]] = own[0]["name"]
+            sc = self.struct_class(inner)
+            self.delegate[cls["id"]] = own[0]["name"]
+            return sc
         if not ints and not bases:
             return cls
         raise XlateError(f"class {cls.get('name')}: integer fields together with base classes are not supported")
@@ -720,6 +739,9 @@ class FuncTranslator:
 
     # ---- locations -----------------------------------------------------------------------------------------
     def read(self, ctx, loc, node=None):
+        if loc.startswith("c:"):
+            base, idx = loc[2:].rsplit(":", 1)
+            return f"{self.read(ctx, base, node)}.{int(idx) + 1}"
         if loc not in ctx.vals:
             self.fail(f"unknown location {loc}", node)
         if loc == ctx.loopvar:
@@ -773,6 +795,10 @@ class FuncTranslator:
         if k == "CXXOperatorCallExpr" and self._callee_name(n) == "operator[]":
             obj, idx = _strip(n["inner"][1]), _strip(n["inner"][2])
             ot = node_type(obj)
+            if ot.kind == "vec2":
+                if idx.get("kind") != "IntegerLiteral" or idx["value"] not in ("0", "1"):
+                    self.fail("VectorD index is not the literal 0 or 1", n)
+                return f"c:{self.lvalue(obj, ctx)}:{idx['value']}"
             if ot.kind == "stdvec" and self.pointwise and obj.get("kind") == "MemberExpr" and \
                     _strip(obj["inner"][0]).get("kind") == "CXXThisExpr":
                 self._check_index(idx, ctx)
@@ -786,7 +812,17 @@ class FuncTranslator:
         if ctx.loopvar is None or idx.get("kind") != "DeclRefExpr" or "v:" + idx["referencedDecl"]["id"] != ctx.loopvar:
             self.fail("array index is not the loop variable", idx)
 
+    def loc_type(self, ctx, loc):
+        if loc.startswith("c:"):
+            return ctx.types[loc[2:].rsplit(":", 1)[0]].to
+        return ctx.types[loc]
+
     def assign(self, ctx, loc, text, lines):
+        if loc.startswith("c:"):
+            base, idx = loc[2:].rsplit(":", 1)
+            cur = self.read(ctx, base)
+            new = f"({text}, {cur}.2)" if idx == "0" else f"({cur}.1, {text})"
+            return self.assign(ctx, base, new, lines)
         if ctx.loop_outer is not None and loc in ctx.loop_outer and loc[:2] in ("v:", "d:", "f:"):
             self.fail(f"the loop body assigns `{ctx.names[loc]}` declared outside the loop (loop-carried value)")
         t = ctx.types[loc]
@@ -819,6 +855,10 @@ class FuncTranslator:
                     self.fail("`return;` in a non-void function", s)
                 return self.result(ctx, None)
             e = inner[0]
+            if self.ret_ct.kind == "void":
+                lines = []
+                self.simple(e, ctx, lines)
+                return lines + self.result(ctx, None)
             if self.ret_ct.kind == "ptr":
                 if not self.pointwise:
                     self.fail("pointer result outside pointwise mode", s)
@@ -1031,13 +1071,13 @@ class FuncTranslator:
                 return
             v, t = self.ev(rhs, ctx)
             loc = self.lvalue(lhs, ctx)
-            v = self.convert(v, t, ctx.types[loc], s)
+            v = self.convert(v, t, self.loc_type(ctx, loc), s)
             self.assign(ctx, loc, v, lines)
             return
         if kind == "CompoundAssignOperator":
             lhs, rhs = s["inner"]
             loc = self.lvalue(lhs, ctx)
-            lt = ctx.types[loc]
+            lt = self.loc_type(ctx, loc)
             cur = self.read(ctx, loc, s)
             clt = parse_type(s["computeLHSType"].get("desugaredQualType") or s["computeLHSType"]["qualType"])
             crt = parse_type(s["computeResultType"].get("desugaredQualType") or s["computeResultType"]["qualType"])
@@ -1050,7 +1090,7 @@ class FuncTranslator:
             return
         if kind == "UnaryOperator" and s.get("opcode") in ("++", "--"):
             loc = self.lvalue(s["inner"][0], ctx)
-            t = ctx.types[loc]
+            t = self.loc_type(ctx, loc)
             if t.kind != "int":
                 self.fail("++/-- on a non-integer", s)
             cur = self.read(ctx, loc, s)
@@ -1061,16 +1101,83 @@ class FuncTranslator:
         if kind == "CallExpr" and self._callee_name(s) == "swap":
             a, b = s["inner"][1], s["inner"][2]
             la, lb = self.lvalue(a, ctx), self.lvalue(b, ctx)
-            if not ctx.types[la].same(ctx.types[lb]):
+            if not self.loc_type(ctx, la).same(self.loc_type(ctx, lb)):
                 self.fail("swap of different types", s)
             va, vb = self.read(ctx, la, s), self.read(ctx, lb, s)
             self.tmp += 1
             tn = self._alloc(f"swap_tmp{self.tmp}")
-            lines.append(f"let {tn} : {ctx.types[la].lean()} := {va}")
+            lines.append(f"let {tn} : {self.loc_type(ctx, la).lean()} := {va}")
             self.assign(ctx, la, vb, lines)
             self.assign(ctx, lb, tn, lines)
             return
+        if kind == "CXXOperatorCallExpr" and self._callee_name(s) == "operator=" and len(s["inner"]) == 3 and \
+                node_type(s["inner"][1]).kind == "vec2":
+            loc = self.lvalue(s["inner"][1], ctx)
+            v, t = self.ev(s["inner"][2], ctx)
+            self.assign(ctx, loc, self.convert(v, t, self.loc_type(ctx, loc), s), lines)
+            return
+        if kind in ("CallExpr", "CXXMemberCallExpr") and node_type(s).kind == "void":
+            return self.call_stmt(s, ctx, lines)
         self.fail("unsupported statement", s)
+
+    def ptr_arg_loc(self, a, ctx):
+        """the location a pointer argument points to: `&lvalue` or a pointer parameter passed on"""
+        a0 = _strip(a)
+        if a0.get("kind") == "UnaryOperator" and a0.get("opcode") == "&":
+            return self.lvalue(a0["inner"][0], ctx)
+        if a0.get("kind") == "DeclRefExpr" and ("d:" + a0["referencedDecl"]["id"]) in ctx.types:
+            return "d:" + a0["referencedDecl"]["id"]
+        self.fail("pointer argument that is neither `&lvalue` nor a pointer parameter", a)
+
+    def resolve_callee(self, n, ctx):
+        name = self._callee_name(n)
+        cid = self._callee_id(n)
+        callee = self.ix.byid.get(cid)
+        if callee is None or not _has_body(callee):
+            self.fail(f"call of `{name}` whose definition is not available", n)
+        if n.get("kind") == "CXXMemberCallExpr":
+            obj = _strip(n["inner"][0]["inner"][0])
+            ok = obj.get("kind") == "CXXThisExpr" or (
+                obj.get("kind") == "MemberExpr" and obj.get("name") in self.tr.delegate.values() and
+                _strip(obj["inner"][0]).get("kind") == "CXXThisExpr")
+            if not ok:
+                self.fail(f"member call `{name}` on an object other than `this`", n)
+        info = self.tr.translate(callee)
+        if info.struct is not None and self.info.struct != info.struct:
+            self.fail(f"call of `{name}` needs `self : {info.struct}`", n)
+        cparms = [c for c in callee.get("inner", []) if c.get("kind") == "ParmVarDecl"]
+        if len(cparms) != len(n["inner"]) - 1:
+            self.fail(f"call of `{name}` with default arguments", n)
+        return name, callee, info, cparms
+
+    def call_stmt(self, n, ctx, lines):
+        """a call whose results are its output parameters: `f(a, &x, &y);`"""
+        name, callee, info, cparms = self.resolve_callee(n, ctx)
+        args = n["inner"][1:]
+        if any(o[0] != "out" for o in info.outs):
+            self.fail(f"call statement of `{name}` which returns a value or modifies the object", n)
+        texts = []
+        for (ln, ty, how) in info.params:
+            a = args[how[1]]
+            if how[0] == "val":
+                v, vt = self.ev(a, ctx)
+                texts.append(self.convert(v, vt, node_type(cparms[how[1]]), n))
+            elif how[0] == "deref" and not self.pointwise:
+                texts.append(self.read(ctx, self.ptr_arg_loc(a, ctx), n))
+            else:
+                self.fail(f"call of `{name}` with an unsupported pointer argument", n)
+        call = f"({info.lean_name}" + (" self" if info.struct else "") + "".join(" " + x for x in texts) + ")"
+        outs = [self.ptr_arg_loc(args[o[1]], ctx) for o in info.outs]
+        if len(set(outs)) != len(outs):
+            self.fail(f"call of `{name}` with aliasing output arguments", n)
+        if len(outs) == 1:
+            self.assign(ctx, outs[0], call, lines)
+            return
+        self.tmp += 1
+        rn = self._alloc(f"r{self.tmp}")
+        lines.append(f"let {rn} : {tuple_type(['Int'] * len(outs))} := {call}")
+        for i, l in enumerate(outs):
+            self.assign(ctx, l, proj(rn, i, len(outs)), lines)
 
     def var_decl(self, d, ctx, lines):
         t0 = d["type"].get("desugaredQualType") or d["type"]["qualType"]
@@ -1354,25 +1461,22 @@ class FuncTranslator:
                 if ot.kind == "stdvec":
                     loc = self.lvalue(n, ctx)
                     return self.read(ctx, loc, n), ctx.types[loc]
+            if name in ("operator+", "operator-") and len(args) == 2 and node_type(args[0]).kind == "vec2" and \
+                    node_type(args[1]).kind == "vec2" and t.kind == "vec2":
+                # draco::VectorD<T, N>::operator± : component-wise `T` arithmetic (core/vector_d.h)
+                a, at = self.ev(args[0], ctx)
+                b, bt = self.ev(args[1], ctx)
+                if not (at.to.same(bt.to) and at.to.same(t.to)):
+                    self.fail("VectorD operator on different scalar types", n)
+                el = self.promote(t.to)
+                c1 = self.convert(self.arith(name[-1], f"{a}.1", f"{b}.1", el), el, t.to, n)
+                c2 = self.convert(self.arith(name[-1], f"{a}.2", f"{b}.2", el), el, t.to, n)
+                return f"({c1}, {c2})", t
             self.fail(f"operator call `{name}`", n)
         # a function of the translated set
-        cid = self._callee_id(n)
-        callee = self.ix.byid.get(cid)
-        if callee is None or not _has_body(callee):
-            self.fail(f"call of `{name}` whose definition is not available", n)
-        if k == "CXXMemberCallExpr":
-            obj = _strip(n["inner"][0]["inner"][0])
-            if obj.get("kind") != "CXXThisExpr":
-                self.fail(f"member call `{name}` on an object other than `this`", n)
-        info = self.tr.translate(callee)
-        if info.struct is not None:
-            if self.info.struct != info.struct:
-                self.fail(f"call of `{name}` needs `self : {info.struct}`", n)
+        name, callee, info, cparms = self.resolve_callee(n, ctx)
         if len(info.outs) != 1 or info.outs[0][0] != "ret":
             self.fail(f"call of `{name}` which has output parameters or modifies the object", n)
-        cparms = [c for c in callee.get("inner", []) if c.get("kind") == "ParmVarDecl"]
-        if len(cparms) != len(args):
-            self.fail(f"call of `{name}` with default arguments", n)
         texts = []
         for (ln, ty, how) in info.params:
             a = args[how[1]]
